@@ -48,7 +48,9 @@ ExpectedOfItem(s, n, fn, kind, x) ==
     IF kind \in {"P", "Q"} /\ fn = "hwires" THEN WiresOfItem(s, n, kind, x)
     ELSE IF kind \in {"P", "Q"} /\ fn = "hcables" THEN {Front(hw) : hw \in WiresOfItem(s, n, kind, x)}
     ELSE ExpectedOfElem(s, n, fn, kind, x)
+RootHS(hs) == [t |-> "HS", hs |-> hs]                 \* a collection (in this order) of hierarchical references
 RootM(n, kind, x) == [t |-> "M", id |-> n, kind |-> kind, x |-> x]     \* the collection [netlist n, element x]
+RECURSIVE ExpectedHQ(_, _)
 ExpectedHQ(s, c) ==
     LET n == IF c.root.t \in {"N", "M"} THEN c.root.id ELSE TheNetlist(s)
         occ == OccOfFn(s, n, c.fn)
@@ -57,6 +59,8 @@ ExpectedHQ(s, c) ==
            IF c.rec THEN occ
            ELSE {h \in occ : Depth(h) = (IF c.fn = "hinstances" THEN 2 ELSE 1)}
       [] c.root.t = "E" -> ExpectedOfItem(s, n, c.fn, c.root.kind, c.root.id)
+      [] c.root.t = "HS" ->     \* the union of what each reference alone gives
+           UNION {ExpectedHQ(s, [c EXCEPT !.root = RootH(c.root.hs[j])]) : j \in DOMAIN c.root.hs}
       [] c.root.t = "M" -> (IF c.rec THEN occ ELSE {h \in occ : Depth(h) = (IF c.fn = "hinstances" THEN 2 ELSE 1)})
                            \cup ExpectedOfItem(s, n, c.fn, c.root.kind, c.root.x)
       [] c.root.t = "S" -> UNION {ExpectedOfElem(s, n, c.fn, c.root.kind, x) : x \in c.root.ids}
@@ -153,6 +157,9 @@ QueryCandsC11(s) ==
     \cup {HQ("hpins", RootE("Q", x), FALSE) : x \in IdsQ(s)}
     \cup {HQ("hcables", RootE("C", x), FALSE) : x \in IdsC(s)}
     \cup {HQ("hwires", RootE("W", x), FALSE) : x \in IdsW(s)}
+    \* two instance references as roots, one the parent of the other, in both orders
+    \cup {HQ("hinstances", RootHS(hs), rec) :
+             <<hs, rec>> \in (UNION {{<<Front(h), h>>, <<h, Front(h)>>} : h \in {hh \in OccInst(s, n) : Len(hh) >= 2}}) \X BOOLEAN}
     \* ports and pins as roots of cable / wire queries, alone and in a collection together with the netlist
     \cup {HQ(fn, RootE("P", x), FALSE) : <<fn, x>> \in {"hcables", "hwires"} \X IdsP(s)}
     \cup {HQ(fn, RootE("Q", x), FALSE) : <<fn, x>> \in {"hcables", "hwires"} \X IdsQ(s)}
